@@ -25,11 +25,16 @@ type Check struct {
 	Scenarios []*engine.Scenario
 	// Special is a non-E1 check body (E2/E3/E4 or custom enumeration); it fills the report itself.
 	Special func(tier Tier, rep *engine.Report) error
+	// SpecialSharded: Special is run in every shard process and divides its work by Shard/NShard.
+	SpecialSharded bool
 	Replay  func(raw []byte) int // replays a Special check's artefact
 	Confirm func(raw []byte) bool // re-runs a Special finding; true if it reproduces
 	Rule    string // how cases are enumerated / what counts as non-trivial
 	Assume  []string
 }
+
+// Shard / NShard are set in shard processes (see Check.SpecialSharded).
+var Shard, NShard = 0, 1
 
 // Registry maps property id -> builder.
 var Registry = map[string]func(t Tier) *Check{}
